@@ -27,8 +27,11 @@ Mixed(lo, hi)   == IF hi - lo + 1 >= 3 THEN OneList(lo, lo + 1) \o Singles(lo + 
 NoDeps(n)  == [i \in 1..n |-> {}]
 NoSched(n) == [i \in 1..n |-> 0]
 Ident(n)   == [i \in 1..n |-> i]
-MkT(f, sch, d, nv, unk, t) == [files |-> f, sched |-> sch, deps |-> d, never |-> nv, unknown |-> unk, tgt |-> t]
+MkT(f, sch, d, nv, unk, t) == [files |-> f, sched |-> sch, deps |-> d, never |-> nv, unknown |-> unk, tgt |-> t,
+                               builtin |-> {}, mode |-> "book"]
 Mk(f, sch, d, nv, unk) == MkT(f, sch, d, nv, unk, Ident(Len(sch)))
+Api(s)     == [s EXCEPT !.mode = "api"]          \* the provider asks textX whether its deps are resolved
+Builtin(s) == [s EXCEPT !.builtin = s.unknown]   \* the unknown names are builtins of the metamodel
 
 \* several references of one list pointing at the same target: all partitions of the references
 Partitions(n) == {t \in [1..n -> 1..n] : \A i \in 1..n : t[i] <= i /\ t[t[i]] = t[i]}
@@ -50,6 +53,10 @@ C08Mc(u)    == [i \in 1..4 |-> C08Of(i - 1, Files1(i - 1), 2)] \o [n \in 1..2 |-
 C08Dup(u)   == [i \in 1..3 |-> {MkT(f, sch, NoDeps(i + 1), {}, {}, t) :
                                    f \in {<<OneList(1, i + 1)>>, <<Mixed(1, i + 1)>>},
                                    sch \in [1..(i + 1) -> 0..2], t \in Partitions(i + 1) \ {Ident(i + 1)}}]
+\* references whose provider answers None (after its postponements) and that end in the builtins
+C08Bi(u)    == [i \in 1..4 |-> {Builtin(Mk(f, sch, NoDeps(i), {}, unk)) :
+                                   f \in {<<OneList(1, i)>>, <<Mixed(1, i)>>}, sch \in [1..i -> 0..2],
+                                   unk \in IF i < 4 THEN SUBSET (1..i) \ {{}} ELSE {{r} : r \in 1..i}}]
 C08Grp(u)   == [i \in 1..3 |-> C08Of(i + 1, GroupLayouts(i + 1), 2)]
 C08Small(u) == [i \in 1..4 |-> C08Of(i - 1, Files1(i - 1) \cup Files2(i - 1), 2)]
 
@@ -63,14 +70,19 @@ LayoutsMore(n) == LayoutsFew(n) \cup {<<OneList(1, 1), Singles(2, n)>>, <<Mixed(
 C09Of(n, L, NV) == {Mk(f, NoSched(n), d, nv, {}) : f \in L, d \in DepsOf(n), nv \in NV}
 C09Small(u) == [i \in 1..4 |-> C09Of(i - 1, LayoutsAll(i - 1), SUBSET (1..(i - 1)))]
 C09Mc(u)    == [i \in 1..4 |-> C09Of(i - 1, LayoutsFew(i - 1), SUBSET (1..(i - 1)))]
+               \o [i \in 1..3 |-> {Api(s) : s \in C09Of(i, LayoutsFew(i), SUBSET (1..i))}]
 C09Grp(u)   == [i \in 1..2 |-> C09Of(i + 1, GroupLayouts(i + 1), SUBSET (1..(i + 1)))]
 C09GrpFour(u) == <<C09Of(4, GroupLayouts(4), {{}})>>
 C09Dup(u)   == <<{MkT(f, NoSched(3), d, {}, {}, t) : f \in {<<OneList(1, 3)>>, <<Singles(1, 1), OneList(2, 3)>>},
                     d \in DepsOf(3), t \in Partitions(3) \ {Ident(3)}}>>
-C09Four(u)  == <<C09Of(4, LayoutsFew(4), {{}})>>
+\* the provider learns through textX whether its deps are resolved
+C09Api(u)   == [i \in 1..3 |-> {Api(s) : s \in C09Of(i, LayoutsFew(i) \cup {<<Singles(1, i)>>} \cup GroupLayouts(i), SUBSET (1..i))}]
+C09Four(u)  == <<C09Of(4, {<<Mixed(1, 4)>>}, {{}}), {Api(s) : s \in C09Of(4, {<<Singles(1, 2), OneList(3, 4)>>}, {{}})}>>
+C09FourApi(u) == <<{Api(s) : s \in C09Of(4, LayoutsMore(4), {{}})}>>
 C09FourNever(u) == <<C09Of(4, LayoutsMore(4), SUBSET (1..4))>>
 \* schedules, dependencies, never-resolving and unknown references together
-MixedOf(n) == {Mk(f, sch, d, nv, unk) : f \in {<<Mixed(1, n)>>, <<Singles(1, 1), Mixed(2, n)>>},
+MixedOf(n) == {IF f = <<Mixed(1, n)>> THEN Builtin(Mk(f, sch, d, nv, unk)) ELSE Mk(f, sch, d, nv, unk) :
+                 f \in {<<Mixed(1, n)>>, <<Singles(1, 1), Mixed(2, n)>>},
                  sch \in [1..n -> 0..1], d \in {e \in DepsOf(n) : \A i \in 1..n : Cardinality(e[i]) <= 1},
                  nv \in {{}} \cup {{r} : r \in 1..n},
                  unk \in {{}} \cup {{r} : r \in 1..n}}
@@ -84,9 +96,9 @@ SetCode(S) == LET RECURSIVE C(_)
 ScCode(s)  == LET n == NOf(s)
                   RECURSIVE Sum(_)
                   Sum(i) == IF i > n THEN 0 ELSE (SetCode(s.deps[i]) + s.sched[i] + s.tgt[i]) * (2 * i + 1) + Sum(i + 1)
-              IN Sum(1) + SetCode(s.never) + Len(s.files) + Len(s.files[1])
+              IN Sum(1) + SetCode(s.never) + SetCode(s.unknown) + Len(s.files) + Len(s.files[1]) + (IF s.mode = "api" THEN 1 ELSE 0)
 Family(name) ==
-  CASE name = "c08"      -> C08Full(0) \o C08Dup(0) \o C08Grp(0)
+  CASE name = "c08"      -> C08Full(0) \o C08Dup(0) \o C08Grp(0) \o C08Bi(0)
     [] name = "c08plain" -> C08Full(0)
     [] name = "c08small" -> C08Small(0)
     [] name = "c08mc"    -> C08Mc(0)
@@ -95,8 +107,8 @@ Family(name) ==
     [] name = "c09four"  -> C09Four(0)
     [] name = "c09never" -> C09FourNever(0)
     [] name = "mixed"    -> MixedSmall(0)
-    [] name = "c09quick" -> C09Small(0) \o C09Four(0) \o MixedSmall(0) \o C09Grp(0) \o C09Dup(0)
-    [] name = "c09thorough" -> C09Small(0) \o C09FourNever(0) \o MixedSmall(0) \o C09Grp(0) \o C09GrpFour(0) \o C09Dup(0)
+    [] name = "c09quick" -> C09Small(0) \o C09Four(0) \o MixedSmall(0) \o C09Grp(0) \o C09Dup(0) \o C09Api(0)
+    [] name = "c09thorough" -> C09Small(0) \o C09FourNever(0) \o MixedSmall(0) \o C09Grp(0) \o C09GrpFour(0) \o C09Dup(0) \o C09Api(0) \o C09FourApi(0)
 EnvScenarioSets == LET nsh == NatOf(IOEnv.VT_NSHARDS)
                        sh  == NatOf(IOEnv.VT_SHARD)
                        fam == Family(IOEnv.VT_FAMILY)
